@@ -143,3 +143,99 @@ Proof.
   - inversion H; subst. apply Nat.eqb_eq in E. split; [now left|assumption].
   - destruct (IH _ H). split; [now right|assumption].
 Qed.
+
+(* ---------------- which positional values reach *args ---------------- *)
+Definition no_default (p : param) : bool := match p_default p with None => true | Some _ => false end.
+(* a positional parameter CPython must fill with a positional value *)
+Definition req_pos (kws : list pname) (p : param) : bool := is_pos p && no_default p && negb (mem (p_name p) kws).
+
+Lemma bind_go_nil_req : forall all kws ps b, bind_go all ps [] kws = Ok b -> filter (req_pos kws) ps = [].
+Proof.
+  intros all kws. induction ps as [|p ps IH]; intros b H; [reflexivity|].
+  simpl in H. unfold by_default in H.
+  assert (Go : forall sl, req_pos kws p = false -> omap (cons (p_name p, sl)) (bind_go all ps [] kws) = Ok b ->
+            filter (req_pos kws) (p :: ps) = []).
+  { intros sl Hr E. simpl. rewrite Hr. destruct (bind_go all ps [] kws) eqn:Eb; [|discriminate]. eapply IH; reflexivity. }
+  destruct (p_kind p) eqn:Ek.
+  - destruct (p_default p) eqn:Ed; [|discriminate]. eapply Go; [|exact H]. unfold req_pos, no_default. rewrite Ed. now rewrite andb_false_r.
+  - destruct (mem (p_name p) kws) eqn:Em.
+    + eapply Go; [|exact H]. unfold req_pos. rewrite Em. now rewrite andb_false_r.
+    + destruct (p_default p) eqn:Ed; [|discriminate]. eapply Go; [|exact H]. unfold req_pos, no_default. rewrite Ed. now rewrite andb_false_r.
+  - eapply Go; [|exact H]. unfold req_pos, is_pos. now rewrite Ek.
+  - destruct (mem (p_name p) kws); [|destruct (p_default p); [|discriminate]]; (eapply Go; [|exact H]; unfold req_pos, is_pos; now rewrite Ek).
+  - eapply Go; [|exact H]. unfold req_pos, is_pos. now rewrite Ek.
+Qed.
+
+Lemma filter_cons_le : forall {A} (g : A -> bool) x l, List.length (filter g (x :: l)) <= S (List.length (filter g l)).
+Proof. intros A g x l. simpl. destruct (g x); simpl; lia. Qed.
+
+Lemma filter_cons_false : forall {A} (g : A -> bool) x l, g x = false -> filter g (x :: l) = filter g l.
+Proof. intros A g x l H. simpl. now rewrite H. Qed.
+
+(* the tuple bound to *args is what is left of the positional values after at least as many of them as there are
+   positional parameters that only a positional value can fill *)
+Lemma bind_go_star : forall all kws ps pos b n l, bind_go all ps pos kws = Ok b -> In (n, BStar l) b ->
+  exists consumed, pos = consumed ++ l /\ List.length (filter (req_pos kws) ps) <= List.length consumed.
+Proof.
+  intros all kws. induction ps as [|p ps IH]; intros pos b n l H Hin.
+  - simpl in H. destruct pos; [|discriminate]. inversion H; subst. contradiction.
+  - assert (Tail : forall pos' sl b', bind_go all ps pos' kws = Ok b' -> b = (p_name p, sl) :: b' ->
+              (forall l0, sl <> BStar l0) ->
+              exists consumed, pos' = consumed ++ l /\ List.length (filter (req_pos kws) ps) <= List.length consumed).
+    { intros pos' sl b' Eb -> Hns. destruct Hin as [E|Hin]; [inversion E; subst; exfalso; eapply Hns; reflexivity|]. eapply IH; eassumption. }
+    assert (Skip : forall pos' sl b', req_pos kws p = false -> bind_go all ps pos' kws = Ok b' -> b = (p_name p, sl) :: b' ->
+              (forall l0, sl <> BStar l0) ->
+              exists consumed, pos' = consumed ++ l /\ List.length (filter (req_pos kws) (p :: ps)) <= List.length consumed).
+    { intros pos' sl b' Hr Eb Eq Hns. rewrite (filter_cons_false _ _ _ Hr). eapply Tail; eassumption. }
+    assert (Take : forall s pos' b', bind_go all ps pos' kws = Ok b' -> b = (p_name p, BOne s) :: b' ->
+              exists consumed, s :: pos' = consumed ++ l /\ List.length (filter (req_pos kws) (p :: ps)) <= List.length consumed).
+    { intros s pos' b' Eb Eq. destruct (Tail pos' (BOne s) b' Eb Eq ltac:(discriminate)) as [c' [-> Hc]].
+      exists (s :: c'). split; [reflexivity|]. eapply Nat.le_trans; [apply filter_cons_le|simpl; lia]. }
+    simpl in H. unfold by_default in H.
+    destruct (p_kind p) eqn:Ek.
+    + destruct pos as [|s pos'].
+      * destruct (p_default p) eqn:Ed; [|discriminate]. destruct (bind_go all ps [] kws) as [b'|] eqn:Eb; [|discriminate].
+        simpl in H. inversion H; subst. eapply Skip; [|exact Eb|reflexivity|discriminate].
+        unfold req_pos, no_default. rewrite Ed. now rewrite andb_false_r.
+      * destruct (bind_go all ps pos' kws) as [b'|] eqn:Eb; [|discriminate]. simpl in H. inversion H; subst.
+        eapply Take; [exact Eb|reflexivity].
+    + destruct pos as [|s pos'].
+      * destruct (mem (p_name p) kws) eqn:Em.
+        -- destruct (bind_go all ps [] kws) as [b'|] eqn:Eb; [|discriminate]. simpl in H. inversion H; subst.
+           eapply Skip; [|exact Eb|reflexivity|discriminate]. unfold req_pos. rewrite Em. now rewrite andb_false_r.
+        -- destruct (p_default p) eqn:Ed; [|discriminate]. destruct (bind_go all ps [] kws) as [b'|] eqn:Eb; [|discriminate].
+           simpl in H. inversion H; subst. eapply Skip; [|exact Eb|reflexivity|discriminate].
+           unfold req_pos, no_default. rewrite Ed. now rewrite andb_false_r.
+      * destruct (mem (p_name p) kws) eqn:Em; [discriminate|].
+        destruct (bind_go all ps pos' kws) as [b'|] eqn:Eb; [|discriminate]. simpl in H. inversion H; subst.
+        eapply Take; [exact Eb|reflexivity].
+    + (* VarPos *)
+      assert (Hr : req_pos kws p = false) by (unfold req_pos, is_pos; now rewrite Ek).
+      destruct (bind_go all ps [] kws) as [b'|] eqn:Eb; [|discriminate]. simpl in H. inversion H; subst.
+      rewrite (filter_cons_false _ _ _ Hr), (bind_go_nil_req _ _ _ _ Eb). destruct Hin as [E|Hin].
+      * inversion E; subst. exists []. split; [reflexivity|simpl; lia].
+      * destruct (IH _ _ _ _ Eb Hin) as [c' [Ec _]]. destruct c'; [|discriminate]. simpl in Ec. subst l.
+        exists pos. split; [now rewrite app_nil_r|simpl; lia].
+    + assert (Hr : req_pos kws p = false) by (unfold req_pos, is_pos; now rewrite Ek).
+      destruct (mem (p_name p) kws); [|destruct (p_default p); [|discriminate]];
+        (destruct (bind_go all ps pos kws) as [b'|] eqn:Eb; [|discriminate]; simpl in H; inversion H; subst;
+         eapply Skip; [exact Hr|exact Eb|reflexivity|discriminate]).
+    + assert (Hr : req_pos kws p = false) by (unfold req_pos, is_pos; now rewrite Ek).
+      destruct (bind_go all ps pos kws) as [b'|] eqn:Eb; [|discriminate]. simpl in H. inversion H; subst.
+      eapply Skip; [exact Hr|exact Eb|reflexivity|discriminate].
+Qed.
+
+Lemma py_bind_star : forall ps pos kws b n l, py_bind ps pos kws = Ok b -> In (n, BStar l) b ->
+  exists consumed, pos = consumed ++ l /\ List.length (filter (req_pos kws) ps) <= List.length consumed.
+Proof.
+  intros ps pos kws b n l H. unfold py_bind in H.
+  destruct (forallb (fun k => mem k (kw_param_names ps) || has_varkw ps) kws); [|discriminate].
+  eapply bind_go_star; eassumption.
+Qed.
+
+Lemma In_skipn : forall {A} (l : list A) k n x, nth_error l k = Some x -> n <= k -> In x (skipn n l).
+Proof.
+  intros A l. induction l as [|a l IH]; intros k n x H Hn; [destruct k; discriminate|].
+  destruct n; [change (In x (a :: l)); eapply nth_error_In; eassumption|].
+  destruct k; [lia|]. simpl in *. eapply IH; [eassumption|lia].
+Qed.
